@@ -18,8 +18,11 @@ def case(task):
     names = tq.names_for(series)
     files, patches, lines = tq.workspace_of(m0, series, names)
     ws.make_ws(root, files, patches, lines)
+    # reject files left over from an earlier run, next to every file: like everything else they are hard-linked into the twin
+    stale = {rel + '.rej': (b'--- stale\n+++ stale\n@@ -1 +1 @@\n-left\n+over\n', 0o644) for rel in files}
+    ws.write_tree(root, stale)
     shutil.rmtree(twin, ignore_errors=True)
-    for rel in files:   # cp -al
+    for rel in list(files) + list(stale):   # cp -al
         p = os.path.join(twin, rel)
         os.makedirs(os.path.dirname(p), exist_ok=True)
         os.link(os.path.join(root, rel), p)
